@@ -282,13 +282,6 @@ def col_sum(ctx, tk):
     ok = bool(calls) and all(any(n is r or fa.cfg.dominates(n, r) for n in calls) for r in rets)
     ctx.decide("C17.h", f, "merged boundaries pass remove_empty_intervals before the 1-D constructor (which refuses empty runs)", True if ok else False,
                "coincident boundaries of different rows reach RunLengthArray as empty runs", key="remove-empty", engine="E1")
-    for n in fa.cfg.stmts():
-        if n.kind == "stmt" and isinstance(n.ast, ast.Assign):
-            tm = fa.term(n.ast.value, n)
-            if np_call(tm, {"argsort"}):
-                kind = dict(tm.a[2]).get("kind")
-                ok = kind is not None and kind.k == "const" and kind.a[0] in ("mergesort", "stable")
-                ctx.decide("C17.h", f, "boundaries of all rows are merged by a stable sort", True if ok else False, "kind=%s" % (kind,), node=n.ast, key="stable", engine="KB")
 
 
 def first_match(ctx, rule, f):
